@@ -49,6 +49,10 @@ func registerIntrinsics(e *Engine) {
 		bp := builderBuf(ex, recv)
 		ex.noteWrite(recv.(Ptr))
 		cur, _ := (*bp).(Slice)
+		ex.steps += len(bs) // one step per byte written
+		if ex.steps > ex.budget {
+			panic(pathEnd{kind: "budget", msg: "step budget exhausted in strings.Builder (text built by the path)"})
+		}
 		*bp = append(cur, bs...)
 	}
 	reg("(*strings.Builder).WriteString", func(ex *Exec, fn *ssa.Function, a []Value) Value {
